@@ -195,6 +195,55 @@ func c11Handshake(res *vlib.Result, label, class, tok string) {
 	}
 }
 
+// c11Scripted drives the real server with the scripted AKEP2 client, which can
+// send what cedar's own client refuses to (tokens without a subject, expired
+// tokens, a claimed identity that is not the token's) and can deviate in each
+// proof field while keeping everything else consistent.
+func c11Scripted(res *vlib.Result, v c11Tok, dev peerDev) {
+	res.Evals++
+	_, sc := c11Cfgs("")
+	dev.Token, dev.Methods, dev.ClaimLevelAuth, dev.ClaimLevelEnc, dev.NoCipher = v.tok, "TOKEN", "REQUIRED", "NEVER", true
+	out := &peerOutcome{}
+	r := hsRun(hsOpts{ServerCfg: sc, ClientScript: scriptedClient(dev, out), App: true})
+	if r.S.Neg != nil {
+		security.GetSessionCache().Invalidate(r.S.Neg.SessionId)
+	}
+	label := fmt.Sprintf("scripted client: token %s, claims %q, proof=%q rb-echo=%q trailing=%v", v.name, dev.TokClaim, dev.TokProof, dev.TokRBEcho, dev.TokTrail)
+	if r.S.Panic != "" {
+		res.Violate("C11/panic/scripted", "%s: %s", label, r.S.Panic)
+		return
+	}
+	if out.MethodRun != "TOKEN" {
+		res.Skipped++
+		res.Outcome("scripted-token-not-run")
+		return
+	}
+	res.Nontrivial++
+	valid, sub, why := refVerify(v.tok, time.Now().Unix())
+	honest := (dev.TokProof == "" || dev.TokProof == "for-other-id") && dev.TokRBEcho == "" && !dev.TokTrail
+	class := fmt.Sprintf("token=%s/claim=%s/proof=%s/echo=%s/trail=%v", v.name, map[bool]string{true: "sub", false: "other"}[dev.TokClaim == ""], dev.TokProof, dev.TokRBEcho, dev.TokTrail)
+	if r.S.Err == nil && r.S.Neg != nil {
+		switch {
+		case !valid:
+			res.Violate("C11/server-accepts-invalid-token/scripted/"+class, "%s: the server authenticated the client although the token is not valid (%s); recorded user %q", label, why, r.S.Neg.User)
+		case !honest:
+			res.Violate("C11/server-accepts-bad-proof/scripted/"+class, "%s: the server authenticated a client that did not present a correct proof / echo; recorded user %q", label, r.S.Neg.User)
+		case r.S.Neg.User != userOf(sub):
+			res.Violate("C11/identity-follows-claim/scripted/"+class, "%s: token subject %q but the server recorded user %q", label, sub, r.S.Neg.User)
+		}
+		res.Outcome("scripted-accepted")
+		return
+	}
+	if valid && honest && dev.TokClaim == "" {
+		res.Violate("C11/server-rejects-valid-client/scripted/"+class, "%s: a correct exchange with a valid token was refused: %s", label, errStr(r.S.Err))
+	}
+	// a server that holds the key proves it in step 2 whenever the token is valid
+	if valid && !out.TokServerProofOK && out.TokStep2Status == 0 {
+		res.Violate("C11/server-proof-wrong/scripted/"+class, "%s: the server's step-2 proof does not verify under the key derived from the token", label)
+	}
+	res.Outcome("scripted-rejected")
+}
+
 // AKEP2 message positions in a TOKEN handshake (frame index per direction).
 const (
 	c11Step1 = 2 // c2s
@@ -482,7 +531,7 @@ func c11Verify(res *vlib.Result, label, class, tok string) {
 func C11Plan() *vlib.Plan {
 	p := &vlib.Plan{
 		Property: "C11", Level: "fault_enumeration",
-		Rule:   "E-FAULT: (1) 20 token variants and every single-bit flip of a valid token string, each through a real client/server TOKEN handshake (no cipher, so the AKEP2 result is the result); (2) for each of the three AKEP2 messages: every byte offset (header and payload) x {^01,^80}, truncation at every 8th byte, 1/8 trailing bytes appended, for step 1 a field-aware substitution of the claimed client identity by {bob, empty, +1 char}, and field-aware alterations of every field of every message (status := 1/-1/2/256; each proof, nonce and nonce echo := empty / first byte only / last byte dropped / one zero byte added / all zero / length 0 or length-1 with the bytes kept; each identity echo := empty / bob / +1 char); (3) VerifyIDToken on the same variants and bit flips. Oracle: independent HKDF+HMAC verifier with the same time rules (variants sit 120 s away from the limits); server success => token valid and no client message altered outside the claimed-identity field; client success => server message unaltered; recorded user = token subject. Non-trivial = the mutated element reached the receiving side.",
+		Rule:   "E-FAULT: (1) 20 token variants and every single-bit flip of a valid token string, each through a real client/server TOKEN handshake (no cipher, so the AKEP2 result is the result); (2) for each of the three AKEP2 messages: every byte offset (header and payload) x {^01,^80}, truncation at every 8th byte, 1/8 trailing bytes appended, for step 1 a field-aware substitution of the claimed client identity by {bob, empty, +1 char}, and field-aware alterations of every field of every message (status := 1/-1/2/256; each proof, nonce and nonce echo := empty / first byte only / last byte dropped / one zero byte added / all zero / length 0 or length-1 with the bytes kept; each identity echo := empty / bob / +1 char); (3) VerifyIDToken on the same variants and bit flips; (4) an independent scripted AKEP2 client (own HKDF/HMAC arithmetic) against the real server: 20 token variants (incl. those cedar's client refuses to send) x claimed identity {the subject, bob, root} x proof {honest, empty, wrong, computed over the identity the server echoed} x RB echo {honest, empty, wrong} x {no, one} trailing byte. Oracle: independent HKDF+HMAC verifier with the same time rules (variants sit 120 s away from the limits); server success => token valid and no client message altered outside the claimed-identity field; client success => server message unaltered; recorded user = token subject. Non-trivial = the mutated element reached the receiving side.",
 		Assume: []string{"base64 decoding is shared with the code (non-canonical trailing bits that decode identically are the same token)", "time-dependent variants are 120 s away from the boundary"},
 	}
 	p.Gen = func(tier string, yield func(vlib.Case)) {
@@ -493,6 +542,23 @@ func C11Plan() *vlib.Plan {
 				res := &vlib.Result{}
 				c11Handshake(res, "token variant "+v.name, "variant-"+v.name, v.tok)
 				c11Verify(res, "token variant "+v.name, "variant-"+v.name, v.tok)
+				res.Sample = v.name
+				return res
+			}})
+		}
+		for _, v := range vars {
+			v := v
+			yield(vlib.Case{ID: "scripted/" + v.name, Run: func() *vlib.Result {
+				res := &vlib.Result{}
+				for _, claim := range []string{"", "bob@verif.domain", "root@verif.domain"} {
+					for _, proof := range []string{"", "empty", "wrong", "for-other-id"} {
+						for _, echo := range []string{"", "empty", "wrong"} {
+							for _, trail := range []bool{false, true} {
+								c11Scripted(res, v, peerDev{TokClaim: claim, TokProof: proof, TokRBEcho: echo, TokTrail: trail})
+							}
+						}
+					}
+				}
 				res.Sample = v.name
 				return res
 			}})
